@@ -318,7 +318,9 @@ def specs(tier, volume=1):
             ms = (2, 3, 4) if kind in ("povmt", "qmpt") else (2,)
             for m in ms:
                 for sh, ph in [("typical", "typical"), ("random", "mixed"), ("random_over", "random_over"),
-                               ("typical_over", "mixed")]:
+                               ("typical_over", "mixed"), ("derived", "derived")]:
+                    if (sh, ph) == ("derived", "derived") and m != ms[0]:
+                        continue
                     if kind == "qmpt" and m == 4 and sh != "typical":
                         continue
                     for sv in ("all", "perm", "reversed", "subset", "repeat"):
@@ -665,6 +667,33 @@ def _check_setup(ctx, spec, full_basis=True):
                 ctx.violate(f"C08/forward-model/{tag}/affine-basis",
                             f"{spec} basis point {lab}, schedule {si} {S.schedules[si]}: matA·var+vecB = {np.round(pr, 6)} "
                             f"but the circuit gives {np.round(c, 6)} (max diff {dlt:.3e})", rep)
+                return
+    # --- candidates OUTSIDE the physical set (normalised, not positive): extrapolations through a pure / boundary object,
+    # as a linear estimate produces them.  Built by the tomography's own template (is_physicality_required=False); whenever
+    # the predicted probabilities are all clearly positive the circuit has to run and to agree
+    t_in, v_in = S.true_var("interior")
+    for cls in ("pure", "boundary"):
+        t_b, v_b = S.true_var(cls)
+        for tt in (1.15, 1.4, 2.0):
+            var = v_in + tt * (v_b - v_in)
+            pred = A @ var + b
+            ctx.case(("oracle-nonphysical", spec, cls, tt), sample={"check": "non-physical candidate", "spec": list(spec),
+                                                                   "t": tt, "min p": float(pred.min())})
+            if pred.min() < 1e-3:
+                continue
+            try:
+                obj = qt.convert_var_to_qoperation(var)
+                circ = np.concatenate(S.circuit(obj))
+                gen = np.concatenate(qt.generate_prob_dists_sequence(obj))
+            except Exception as e:  # noqa
+                ctx.violate(f"C08/circuit/{tag}/nonphysical-candidate/raises-{type(e).__name__}",
+                            f"{spec}: candidate centre + {tt}·({cls} − centre) (normalised, not positive, all predicted "
+                            f"probabilities ≥ {pred.min():.3f}): the circuit cannot be run: {type(e).__name__}: {str(e)[:120]}", rep)
+                return
+            if circ.shape != pred.shape or not np.abs(circ - pred).max() <= 1e-11 or not np.abs(gen - pred).max() <= 1e-11:
+                ctx.violate(f"C08/forward-model/{tag}/nonphysical-candidate",
+                            f"{spec}: candidate centre + {tt}·({cls} − centre): matA·var+vecB differs from the circuit by "
+                            f"{np.abs(circ - pred).max():.2e}", rep)
                 return
     # --- library paths: generate_prob_dists_sequence, calc_prob_dist(s) for physical candidates
     cand = [S.true_var(cls)[0] for cls in ("interior", "boundary", "pure")]
